@@ -252,7 +252,7 @@ func checkMtree(c *fw.Case, site string, out []byte, want map[string]*treeEntry,
 }
 
 func runC05(c *fw.Case) {
-	if desyncBin() != "" && c.Chance(1, procRate(60), "c05.proc") {
+	if desyncBin() != "" && c.ChanceAdded(1, procRate(60), "c05.proc") {
 		runC05Proc(c)
 		return
 	}
@@ -469,7 +469,7 @@ func runC05(c *fw.Case) {
 		}
 		// fault: the tar stream ends inside a member; Tar has to report it (unless archive/tar itself takes the
 		// cut stream for a complete archive)
-		if c.Chance(1, 4, "c05.tarcut") {
+		if c.ChanceAdded(1, 4, "c05.tarcut") {
 			off := c.Draw(len(tarBytes), "c05.tarcut.at")
 			if off%512 == 0 {
 				off++
